@@ -75,12 +75,17 @@ func (s *socket) addPipe(tp transport.Pipe, d *dialer, l *listener) {
 
 	p.lock.Lock()
 	if p.closing {
-		p.lock.Lock()
+		// Closed while attaching (by the hook, or the socket closing):
+		// it never reaches the protocol, so release it here.
+		p.lock.Unlock()
+		s.pipes.Remove(p)
+		pipeIDs.Free(p.id)
 		return
 	}
 	if s.proto.AddPipe(p) != nil {
 		p.lock.Unlock()
 		s.pipes.Remove(p)
+		pipeIDs.Free(p.id)
 		go p.close()
 		return
 	}
